@@ -306,6 +306,16 @@ func limitProbe(rep *ev.Reporter, tier string, seed int64, stats oracle.Stats) {
 				continue
 			}
 			stats["C18.limit_boundaries_checked"]++
+			// a single sample that is larger than the whole limit can never be stored: some Write of
+			// the first few must fail (the muxer may hold a sample back for one Write)
+			if idx, msg, err := firstFailingWrite(lc, s, uint64(s/2), 6); err == nil {
+				stats["C18.oversize_samples_checked"]++
+				if idx < 0 {
+					rep.Report("C18/limit-boundary/oversize-sample/"+lc.String(), fmt.Sprintf("%s: six writes of %d-byte samples went through with SegmentMaxSize %d: a sample larger than the limit was buffered instead of refused", lc, s, s/2), ref)
+				} else if !strings.Contains(msg, "maximum segment size") {
+					rep.Report("C18/limit-boundary/other-error", fmt.Sprintf("%s: write %d of %d-byte samples failed with %q (limit %d)", lc, idx, s, msg, s/2), ref)
+				}
+			}
 			switch {
 			case w[0] < 0 || w[1] < 0 || w[2] < 0:
 				rep.Report("C18/limit-boundary/no-error/"+lc.String(), fmt.Sprintf("%s: %d writes of %d bytes each went through with SegmentMaxSize around %d x %d and a segment that never rotates (first failing writes %v)", lc, k+8, s, k, s, w), ref)
